@@ -48,6 +48,40 @@ def frame_keys_allowed(c: Contract) -> set[str]:
     return keys
 
 
+def structure_of(repo: Repo, fn: ast.FunctionDef) -> dict:
+    """What a sidecar contract is written against besides the statements themselves: the loops of the function (their headers,
+    in source order - loop invariants are keyed by this order) and the repository functions / classes / methods it calls
+    (callees are used through their contracts or inlined).  If this changed, the sidecar's invariants belong to another
+    program text and a failing obligation says nothing about the code (pyvc/run.py)."""
+    loops = [n for n in ast.walk(fn) if isinstance(n, (ast.For, ast.While))]
+    loops.sort(key=lambda n: (n.lineno, n.col_offset))
+    heads = []
+    for n in loops:
+        if isinstance(n, ast.For):
+            heads.append(f"for {ast.unparse(n.target)} in {ast.unparse(n.iter)}")
+        else:
+            heads.append(f"while {ast.unparse(n.test)}")
+    comps = sum(1 for n in ast.walk(fn) if isinstance(n, (ast.ListComp, ast.DictComp, ast.SetComp, ast.GeneratorExp)))
+    method_names = set()
+    for ci in repo.classes.values():
+        method_names |= set(ci.methods) | set(ci.properties)
+    fn_names = set()
+    for t in repo.modules.values():
+        for node in t.body:
+            if isinstance(node, ast.FunctionDef):
+                fn_names.add(node.name)
+    calls = set()
+    for n in ast.walk(fn):
+        if isinstance(n, ast.Call):
+            f = n.func
+            if isinstance(f, ast.Name) and (f.id in fn_names or f.id in repo.classes):
+                calls.add(f.id)
+            elif isinstance(f, ast.Attribute) and f.attr in method_names and not (isinstance(f.value, ast.Name) and f.value.id in ("logger", "logging", "warnings")):
+                if f.attr not in ("append", "get", "items", "keys", "values", "copy", "pop", "remove", "add", "update", "extend", "insert", "index", "count", "format", "join", "split", "strip"):
+                    calls.add("." + f.attr)
+    return {"loops": heads, "comprehensions": comps, "calls": sorted(calls)}
+
+
 def generate(repo: Repo, reg: Registry, c: Contract) -> tuple[list[VC], Verifier, St]:
     """All VCs of one function (or lemma) against its contract."""
     from pyvc import engine as _E
@@ -129,6 +163,7 @@ def generate(repo: Repo, reg: Registry, c: Contract) -> tuple[list[VC], Verifier
     eng.emit("requires.cover", "precondition is satisfiable (vacuity guard)", st, z3.BoolVal(True), "cover", fn.lineno, cover=True)
     params0 = dict(st.loc)
     eng.loop_ctx = [(eng.loop_ordinals(fn), c.loops, "")]
+    eng.structure = structure_of(repo, fn) if c.lemma_src is None else None
     outs = eng.exec_block(fn.body, st)
     allowed = frame_keys_allowed(c)
     n_ret = 0
